@@ -192,7 +192,7 @@ def handlePTN : Handler := fun st op args =>
                  else if kind == "shout" then TextGlue.parseShout TextGlue.regexpInst line
                  else TextGlue.parseShoutRoom TextGlue.regexpInst line
         fmtR r (fun gs => " ".intercalate (gs.map hexEnc)))
-  | "weights", [_, res] =>
+  | "weightsjson", [_, res] =>
     -- the harness sends json.Unmarshal's own answer (`err`, or the decoded map); the model is the glue
     some (st, match (if res == "err" then some (Except.error (Err.illegal "json")) else (parseKV res).map Except.ok) with
       | none => "bad-arg"
